@@ -808,7 +808,8 @@ NONVAC = {   # model variants that must be refuted by TLC (non-vacuity): the cod
     "C04": {"quick": [("MC_nv_c04_nostop.cfg", "sibling edges iterated after an answer"),
                       ("MC_nv_c04_noresume.cfg", "response walk resumed at edges[0] only / skipped without root"),
                       ("MC_nv_wit_answer.cfg", "witness: some walk is answered by a Gen and continues on the response side")],
-            "thorough": [("MC_nv_c04_noexit.cfg", "exits of a flow referenced with 'from: flow at end' not linked on the response side"),
+            "thorough": [("MC_nv_c04_nostartnode.cfg", "start node of the answering flow kept for the user flows visited after it"),
+                         ("MC_nv_c04_noexit.cfg", "exits of a flow referenced with 'from: flow at end' not linked on the response side"),
                          ("MC_nv_wit_fanout.cfg", "witness: some processor runs twice in one walk (fan-out reconverging)")]},
     "C05": {"quick": [("MC_nv_c05_rootcycles.cfg", "cycle check only from the root's edges"),
                       ("MC_nv_c05_norefcheck.cfg", "circular flow reference recursing without end")],
@@ -875,7 +876,7 @@ def model_check(ctx, prop, tier):
         if r.violated is None:
             raise Broken("non-vacuity: TLC did not refute '%s' (%s): %r" % (why, cfg, r))
         return r
-    parallel(one, jobs, n=len(jobs))
+    parallel(one, jobs, n=min(3, len(jobs)))      # with the export running next to it: at most 4 JVMs
 
 
 def exercise(ctx, prop, binary, cases, tag, reported, drift=True):
@@ -976,7 +977,7 @@ def run_property(ctx, prop):
     account(lines, refs, bad)
     k = next((i for i, l in enumerate(lines) if nontrivial_c04(l)), None)
     if k is not None:
-        ctx.sample({"kind": "generated configuration + real execution", "flow_yaml": refs[k][0]["files"]["flows/A.yaml"][-900:],
+        ctx.sample({"kind": "generated configuration + real execution", "flow_yaml": sorted(refs[k][0]["files"].items())[0][1][-900:],
                     "transaction": {"dir": lines[k]["dir"], "bits": refs[k][1].get("bits")},
                     "executed": [[s["key"], s["dir"], s["out"]] for s in lines[k]["seq"]]})
 
